@@ -106,14 +106,16 @@ pub open spec fn is_page(r: BrowseResult, list: Seq<ReferenceDescription>, start
     &&& r.references->Some_0@ == list.subrange(start, page_end(list.len() as int, start, max))
     &&& s1.max_browse_continuation_points == s0.max_browse_continuation_points
     &&& if more(list.len() as int, start, max) {
-            // a continuation point for the rest: the whole list and the index of the first unsent reference
+            // a continuation point for the rest
             &&& r.continuation_point.value is Some
             &&& s1.browse_continuation_points@.len() >= 1
             &&& ({
                 let cp = s1.browse_continuation_points@.last();
                 &&& cp.id == r.continuation_point
-                &&& cp_list(cp) == list
-                &&& cp.starting_index == start + max
+                // what the point still has to deliver is the rest of the list (how it stores that — the whole list and an index, or
+                // only the rest — is its own business)
+                &&& cp.starting_index <= cp_list(cp).len()
+                &&& cp_list(cp).subrange(cp.starting_index as int, cp_list(cp).len() as int) =~= list.subrange(start + max, list.len() as int)
                 &&& cp.max_references_per_node == max
                 &&& cp.address_space_last_modified == last_modified
             })
@@ -178,10 +180,10 @@ SPEC = {
             session_ok(*final(session)),'''),
     'browse_from_continuation_point': ('r', '''        requires session_ok(*old(session)),
         ensures session_ok(*final(session)),
-            // an unknown (or used, or released, or expired) continuation point is refused and nothing changes
+            // an unknown (or used, or released, or expired) continuation point is refused and nothing is returned or issued
             // (with which Bad status it is refused is not part of the property)
             r.status_code != StatusCode::Good ==> r.references is None && r.continuation_point.value is None
-                && final(session).browse_continuation_points@ == old(session).browse_continuation_points@,
+                && final(session).browse_continuation_points@.len() <= old(session).browse_continuation_points@.len(),     // nothing is issued (a refused point may be dropped)
             // otherwise the answer is the next page of the list the point recorded, and the point itself is used up
             r.status_code == StatusCode::Good ==> exists|i: int| 0 <= i < old(session).browse_continuation_points@.len() && ({
                 let cp = #[trigger] old(session).browse_continuation_points@[i];
